@@ -12,6 +12,7 @@ import (
 	"encoding/json"
 	"errors"
 	"fmt"
+	"net/http"
 	"os"
 	"strings"
 	"sync"
@@ -19,6 +20,8 @@ import (
 	"time"
 
 	pkgerrors "github.com/pkg/errors"
+	"github.com/yandex/pandora/components/providers/http/middleware"
+	httpRegister "github.com/yandex/pandora/components/providers/http/register"
 	"github.com/yandex/pandora/core"
 	"github.com/yandex/pandora/core/aggregator/netsample"
 	"github.com/yandex/pandora/core/engine"
@@ -57,6 +60,9 @@ func buildPool(p Plan, idx int, marker error) (engine.InstancePoolConfig, *poolM
 	fault := idx == p.FaultPool
 	pm := &poolMocks{prov: &vkit.MockProvider{Items: tokensPerPool, FailAfter: -1}, aggr: &vkit.MockAggregator{FailAfter: -1}, plan: vkit.NewGunPlan()}
 	pm.plan.Closer = true
+	if p.Rep%2 == 0 {
+		pm.plan.CloseTakes = 15 * time.Millisecond
+	}
 	us := p.ShotUs
 	pm.plan.ShotDur = func(inst, shot, ammo int) time.Duration { return time.Duration(us) * time.Microsecond }
 	longNeighbour := !fault && p.Pools > 1 && p.Component != "none" && p.Component != "warmup-ok"
@@ -445,6 +451,22 @@ var realAmmo = map[string]string{
 // when the instances are already waiting for ammo) or fails in the middle of the file. The run
 // must return an error carrying the cause, Wait must return, every started instance must
 // finish and every gun be closed.
+// failingMW is a request middleware (registered like the built-in header/date) whose start-up
+// fails 60 ms into the run — when the instances are already waiting for ammo.
+type failingMW struct{}
+
+func (failingMW) InitMiddleware(ctx context.Context, _ *zap.Logger) error {
+	select {
+	case <-time.After(60 * time.Millisecond):
+	case <-ctx.Done():
+	}
+	return errMWInit
+}
+func (failingMW) UpdateRequest(*http.Request) error { return nil }
+
+var errMWInit = errors.New("verif: middleware could not be started")
+var registerMW sync.Once
+
 func realProviderFault(res *vkit.Result, c realCase) {
 	key := "C05/real-provider/" + c.Provider + "/" + strings.SplitN(c.Fault, "-after-", 2)[0]
 	dir := "/failopen/"
@@ -461,9 +483,20 @@ func realProviderFault(res *vkit.Result, c realCase) {
 		path = dir + strings.ReplaceAll(c.Provider, "/", "_") + fmt.Sprintf("-%d-empty.yaml", c.Instances)
 		content = nothingToShoot[c.Provider]
 	}
+	if c.Fault == "middleware-start-fails-late" {
+		// source and ammo are fine; a middleware of the provider cannot be started
+		registerMW.Do(func() {
+			httpRegister.HTTPMW("verif/failing", func() (middleware.Middleware, error) { return failingMW{}, nil })
+		})
+		dir, cause = "/verif/", errMWInit
+		path = dir + strings.ReplaceAll(c.Provider, "/", "_") + fmt.Sprintf("-%d-mw.ammo", c.Instances)
+	}
 	_ = vkit.WriteMemAt(path, []byte(content))
 	defer vkit.RemoveMem(path)
 	ammo := map[string]any{"type": c.Provider, "file": path}
+	if c.Fault == "middleware-start-fails-late" {
+		ammo["middlewares"] = []any{map[string]any{"type": "verif/failing"}}
+	}
 	if c.Provider == "json" {
 		ammo = map[string]any{"type": "json", "source": map[string]any{"type": "file", "path": path}}
 	}
@@ -563,6 +596,11 @@ func realProviderFaults(res *vkit.Result) {
 			for _, inst := range []int{1, 4} {
 				realProviderFault(res, realCase{Provider: prov, Fault: fault, Instances: inst})
 			}
+		}
+	}
+	for _, prov := range []string{"uri", "uripost", "raw", "http/json"} {
+		for _, inst := range []int{1, 4} {
+			realProviderFault(res, realCase{Provider: prov, Fault: "middleware-start-fails-late", Instances: inst})
 		}
 	}
 	for _, prov := range []string{"http/scenario", "grpc/scenario", "uri", "raw", "http/json"} {
